@@ -1,12 +1,164 @@
-(* C11 -- proofs about Model/C11.v *)
-From PV Require Import Lib.Base Lib.Round Gen.C11_Tables Model.C11.
-From Coq Require Import QArith Qabs Qround Qminmax.
+(* C11 -- final lemmas behind Props/C11.v (the groundwork is in C11_lib / C11_meas / C11_est) *)
+From PV Require Import Lib.Base Lib.Round Gen.C11_Tables Model.C11 Model.C11_Spec Proofs.C11_lib Proofs.C11_meas Proofs.C11_est.
+From Coq Require Import QArith Qabs Qround Qminmax Sorting.Sorted.
 #[local] Open Scope Z_scope.
 
-(* pieces tile [s, e): the durations telescope *)
-Lemma total_dur_pieces : forall cuts s e, total_dur (pieces s cuts e) = e - s.
+(* ---- measures: every time of [first, last) lies in exactly one measure *)
+Lemma measures_partition_lemma div tsigs first last ex ms :
+  pre tsigs first last ex div -> add_measures div tsigs first last ex = Some ms ->
+  forall x, first <= x < last ->
+    exists m, In m (spans ms) /\ fst m <= x < snd m
+              /\ forall m', In m' (spans ms) -> fst m' <= x < snd m' -> m' = m.
 Proof.
-  induction cuts as [|c r IH]; intros s e; simpl.
-  - lia.
-  - rewrite IH. lia.
+  intros P H x Hx. pose proof (measures_tile_lemma _ _ _ _ _ _ P H) as C.
+  destruct (chain_from_locate _ _ _ x C Hx) as (m & Hm & Hin & _).
+  exists m. split; [exact Hm|]. split; [exact Hin|].
+  intros m' Hm' Hin'. exact (chain_from_unique _ _ _ C x m' m Hm' Hm Hin' Hin).
 Qed.
+
+(* ---- length of a new measure *)
+Lemma new_measure_length_full div tsigs first last ex ms :
+  pre tsigs first last ex div -> add_measures div tsigs first last ex = Some ms ->
+  forall m, In m ms -> m_old m = false ->
+  exists s, In s (stretches div tsigs first last)
+            /\ stretch_in_force div (ts_rows tsigs first) s
+            /\ fst (st_span s) <= m_start m < snd (st_span s) /\ snd (st_span s) <= last
+            /\ new_ok ex (st_bl s) last (snd (st_span s)) m.
+Proof.
+  intros P H m Hm Ho.
+  destruct (new_measure_length_lemma _ _ _ _ _ _ P H m Hm Ho) as (s & Hs & Hr & Hn).
+  destruct P as [T X].
+  exists s. split; [exact Hs|]. split; [exact (stretches_in_force_lemma _ _ _ _ T s Hs)|].
+  split; [exact Hr|]. split; [|exact Hn].
+  destruct (stretches_chain div tsigs first last T) as [_ B]. apply (B s Hs).
+Qed.
+
+Lemma full_end_comp bl bl' last pos : (bl == bl')%Q -> full_end bl last pos = full_end bl' last pos.
+Proof.
+  intros E. unfold full_end. f_equal. apply round_half_even_comp.
+  destruct (Qlt_le_dec (inject_Z pos + bl) (inject_Z last)) as [L|L].
+  - rewrite Q.min_l by (apply Qlt_le_weak; exact L). rewrite Q.min_l by (rewrite <- E; apply Qlt_le_weak; exact L).
+    rewrite E. reflexivity.
+  - rewrite Q.min_r by exact L. rewrite Q.min_r by (rewrite <- E; exact L). reflexivity.
+Qed.
+
+(* a bar that is a whole number B of divisions: a new measure is B long, or shorter and cut by the
+   end of the signature's stretch (the next signature or the last point), the last point, or the
+   start of an existing measure *)
+Lemma new_measure_length_integral_lemma div tsigs first last ex ms :
+  pre tsigs first last ex div -> add_measures div tsigs first last ex = Some ms ->
+  forall m, In m ms -> m_old m = false ->
+  exists s, In s (stretches div tsigs first last)
+    /\ stretch_in_force div (ts_rows tsigs first) s
+    /\ fst (st_span s) <= m_start m < snd (st_span s)
+    /\ forall B, 1 <= B -> (st_bl s == inject_Z B)%Q ->
+         m_end m - m_start m = B
+         \/ (m_end m - m_start m < B
+             /\ (m_end m = snd (st_span s) \/ m_end m = last \/ exists x, In x ex /\ fst x = m_end m)).
+Proof.
+  intros P H m Hm Ho.
+  destruct (new_measure_length_full _ _ _ _ _ _ P H m Hm Ho) as (s & Hs & Hf & Hr & Hl & Hn).
+  exists s. split; [exact Hs|]. split; [exact Hf|]. split; [exact Hr|].
+  intros B HB EB. specialize (Hn Ho).
+  rewrite (full_end_comp _ _ last (m_start m) EB) in Hn.
+  rewrite (full_end_integral B last (m_start m) HB ltac:(lia)) in Hn.
+  destruct Hn as [Hn|[Hlt Hx]].
+  - destruct (Z.eq_dec (m_end m - m_start m) B) as [|Ne]; [left; assumption|right].
+    split; [lia|]. destruct (Z.eq_dec (m_end m) (snd (st_span s))); [left; assumption|right; left; lia].
+  - right. split; [lia|]. right. right. exact Hx.
+Qed.
+
+(* ---- tie_notes: pieces are non-empty and lie within one measure *)
+Lemma tie_pieces_wf_lemma ms a b bars div ps :
+  0 < div -> chain_from a ms b -> bars = map fst ms ->
+  Forall (fun p => a <= fst p /\ fst p < snd p /\ snd p <= b) ps ->
+  Forall (fun q => within_one ms q /\ fst q < snd q) (tie_pieces bars div ps).
+Proof.
+  intros Hd C -> F. apply Forall_forall. intros q Hq.
+  unfold tie_pieces, stage2_pieces in Hq. apply in_flat_map in Hq as (p1 & Hp1 & Hq).
+  unfold stage1_pieces in Hp1. apply in_flat_map in Hp1 as (p & Hp & Hp1).
+  rewrite Forall_forall in F. destruct (F p Hp) as (A1 & A2 & A3).
+  pose proof (stage1_within ms a b (fst p) (snd p) C A1 A2 A3 p1 Hp1) as (m & Hm & M1 & M2).
+  destruct (pieces_between_bars (map fst ms) (fst p) (snd p) (chain_from_starts_sorted _ _ _ C) A2 p1 Hp1) as (B1 & B2 & _).
+  destruct (stage2_piece_inside div p1 q Hd B2 Hq) as (D1 & D2 & D3).
+  split; [|exact D2]. exists m. split; [exact Hm|]. lia.
+Qed.
+
+Lemma tie_chain_identity_lemma bars div p v st ps :
+  exists ps', tie_chain bars div (p, v, st, ps) = (p, v, st, ps').
+Proof. eexists. reflexivity. Qed.
+
+(* stage 2: afterwards a piece has a notated value, or it is a piece of stage 1 that the splitter
+   could not split (or the model ran out of fuel on it) *)
+Lemma stage2_outcome_lemma div p q :
+  0 < div -> fst p < snd p -> In q (stage2_piece div p) ->
+  has_sym (piece_sym div q) = true
+  \/ (q = p /\ ((forall cuts, find_tie_split (fst p) (snd p) div <> Some (Some cuts))
+               \/ estimate (snd p - fst p) div = EFuel)).
+Proof.
+  intros Hd Hp Hin. unfold stage2_piece in Hin. unfold piece_sym.
+  destruct (estimate (snd p - fst p) div) eqn:EE.
+  - destruct Hin as [<-|[]]. right. split; [reflexivity|]. right. reflexivity.
+  - destruct (find_tie_split (fst p) (snd p) div) as [[cuts|]|] eqn:EF.
+    + left. destruct (find_tie_split_sound_lemma _ _ _ _ Hd Hp EF) as (_ & F & _).
+      rewrite Forall_forall in F. exact (F q Hin).
+    + destruct Hin as [<-|[]]. right. split; [reflexivity|]. left. intros cuts E. discriminate.
+    + destruct Hin as [<-|[]]. right. split; [reflexivity|]. left. intros cuts E. discriminate.
+  - destruct Hin as [<-|[]]. left. rewrite EE. reflexivity.
+Qed.
+
+Lemma tie_outcome_lemma bars div ps q :
+  0 < div -> StronglySorted Z.lt bars -> Forall (fun p => fst p < snd p) ps ->
+  In q (tie_pieces bars div ps) ->
+  has_sym (piece_sym div q) = true
+  \/ (In q (stage1_pieces bars ps)
+      /\ ((forall cuts, find_tie_split (fst q) (snd q) div <> Some (Some cuts))
+          \/ estimate (snd q - fst q) div = EFuel)).
+Proof.
+  intros Hd S F Hq.
+  unfold tie_pieces, stage2_pieces in Hq. apply in_flat_map in Hq as (p1 & Hp1 & Hq).
+  pose proof Hp1 as Hp1'.
+  unfold stage1_pieces in Hp1. apply in_flat_map in Hp1 as (p & Hp & Hp1).
+  rewrite Forall_forall in F. pose proof (F p Hp) as A2.
+  destruct (pieces_between_bars bars (fst p) (snd p) S A2 p1 Hp1) as (_ & B2 & _).
+  destruct (stage2_outcome_lemma div p1 q Hd B2 Hq) as [L|[-> R]]; [left; exact L|right].
+  split; assumption.
+Qed.
+
+(* every symbolic duration assigned to a piece evaluates to the piece's numeric duration when the
+   estimator hit its value exactly (no use of the eps tolerance) *)
+Lemma assigned_symbolic_exact_lemma div q sd :
+  0 < div -> fst q < snd q -> piece_sym div q = ESome sd -> exact_hit (snd q - fst q) div = true ->
+  exists v, sym_to_num sd div = Some v /\ (v == inject_Z (snd q - fst q))%Q.
+Proof.
+  intros Hd Hq He Hx. unfold piece_sym in He.
+  exact (estimate_exact_lemma (snd q - fst q) div sd ltac:(lia) Hd He Hx).
+Qed.
+
+(* ---- the hypotheses are satisfiable: 3/4 at 4 divisions from 0, 2/4 from 24, last point 40, an
+   existing measure (5, 9) and one (30, 33) *)
+Definition ex_tsigs : list (Z * Z * Z) := [(0, 3, 4); (24, 2, 4)].
+Definition ex_existing : list (Z * Z) := [(5, 9); (30, 33)].
+
+Lemma ex_pre : pre ex_tsigs 0 40 ex_existing 4 /\ ex_sorted ex_existing.
+Proof.
+  split; [split|].
+  - split; [discriminate|]. split; [lia|]. split.
+    + simpl. repeat constructor.
+    + repeat constructor; unfold row_t; simpl; lia.
+  - intros s Hs. vm_compute in Hs.
+    destruct Hs as [<-|[<-|[]]]; intros m [<-|[<-|[]]]; simpl; lia.
+  - repeat constructor; simpl; lia.
+Qed.
+
+Lemma ex_result :
+  add_measures 4 ex_tsigs 0 40 ex_existing
+  = Some [(0, 5, 1, false); (5, 9, 2, true); (9, 21, 3, false); (21, 24, 4, false);
+          (24, 30, 5, false); (30, 33, 6, true); (33, 40, 7, false)].
+Proof. vm_compute. reflexivity. Qed.
+
+(* a note (3, 26) of a part with these measures at 4 divisions: five pieces, all notated *)
+Lemma ex_tie :
+  tie_chain [0; 5; 9; 21; 24; 30; 33] 4 (60, 1, 1, [(3, 26)])
+  = (60, 1, 1, [(3, 5); (5, 9); (9, 21); (21, 24); (24, 26)]).
+Proof. vm_compute. reflexivity. Qed.
